@@ -594,8 +594,36 @@ impl Corpus {
             (Arc::from(sibling(&t, &mut rng)), cat, planted)
         } else {
             let mut rng = Rng::derive(self.seed, &[ENGINE_A, 0x7E57, id as u64]);
-            let t = texts::ambient_text(&mut rng);
-            (Arc::from(t.text), t.category, t.planted)
+            if rng.chance(1, 10) && !self.fixed.is_empty() {
+                // a repository file with 1-3 line-level edits (drop / duplicate / swap lines):
+                // near-valid variants of the real grammars, including the large ones
+                let base = self.fixed[rng.below(self.fixed.len())].1.clone();
+                let mut lines: Vec<String> = base.split_inclusive('\n').map(|l| l.to_string()).collect();
+                let n = rng.range(1, 3);
+                for _ in 0..n {
+                    if lines.is_empty() {
+                        break;
+                    }
+                    let i = rng.below(lines.len());
+                    match rng.below(3) {
+                        0 => {
+                            lines.remove(i);
+                        }
+                        1 => {
+                            let l = lines[i].clone();
+                            lines.insert(i, l);
+                        }
+                        _ => {
+                            let j = rng.below(lines.len());
+                            lines.swap(i, j);
+                        }
+                    }
+                }
+                (Arc::from(lines.concat()), "repo-file-edited", 0)
+            } else {
+                let t = texts::ambient_text(&mut rng);
+                (Arc::from(t.text), t.category, t.planted)
+            }
         };
         self.cache.insert(id, v.clone());
         v
